@@ -15,7 +15,7 @@ import pulsarbat as pb
 from harness import exact as X
 from harness.common import zlit, listlit
 
-VFILES = ['Model/Chunk.v', 'Proofs/ChunkProofs.v', 'Props/C09.v']
+VFILES = ['Model/Chunk.v', 'Proofs/ChunkProofs.v', 'Gen/GenDask.v', 'Proofs/DaskGen.v', 'Props/C09.v']
 ATTRS = ('sample_rate', 'start_time', 'center_freq', 'chan_bw', 'freq_align', 'pol_type', 'meta')
 COUNTER = []
 DATA = '/repo/tests/data/'
